@@ -405,6 +405,46 @@ def successor_candidates(n: int, count: int, g) -> list:
     return out
 
 
+def interpreted_points(tier: str) -> List[dict]:
+    """C16: the shipped models at their smallest sizes, run by the INTERPRETED engine (a bounds-checking executor for
+    everything a model plugs into the engine: the Golomb consistency algorithm sizes its scratch arrays by a counting
+    argument).  Only an index error is judged here; counts and validators are C20's business (compiled)."""
+    th = tier == "thorough"
+    P = []
+    for n in (3, 4) + ((5,) if th else ()):
+        for sym in (True, False):
+            for op in ("opt", "find_all"):
+                P.append({"spec": {"model": "golomb", "n": n, "sym": sym, "op": op, "cfg": {"golomb_alg": True}}, "fix_cons": True})
+                P.append({"spec": {"model": "golomb", "n": n, "sym": sym, "op": op}})
+    for n in (4, 5, 6):
+        P.append({"spec": {"model": "queens", "n": n}})
+    for n in (1, 2, 3, 4, 5, 7):
+        P.append({"spec": {"model": "magic_sequence", "n": n}})
+    for n in (2, 3):
+        P.append({"spec": {"model": "latin", "n": n}})
+        P.append({"spec": {"model": "latin_rc", "n": n}})
+        P.append({"spec": {"model": "quasigroup", "n": n, "sym": bool(n % 2)}})
+    P.append({"spec": {"model": "qg5", "n": 4, "sym": True}})
+    P.append({"spec": {"model": "magic_square", "n": 3, "sym": True}})
+    P.append({"spec": {"model": "magic_square", "n": 2, "sym": False}})
+    for v, b, r, k, l in ((3, 3, 2, 2, 1), (2, 2, 1, 1, 0), (4, 6, 3, 2, 1)):
+        P.append({"spec": {"model": "bibd", "v": v, "b": b, "r": r, "k": k, "l": l, "sym": v % 2 == 1}})
+    for n in (1, 2, 4, 6):
+        P.append({"spec": {"model": "schur", "n": n, "sym": n % 2 == 0}})
+    P.append({"spec": {"model": "sports", "n": 2, "sym": False}})
+    P.append({"spec": {"model": "sports", "n": 4, "sym": True, "limit": 1}})
+    P.append({"spec": {"model": "knapsack", "weights": [3, 0, 5, 2], "volumes": [2, 4, 0, 3], "capacity": 5, "op": "opt"}})
+    for n in (2, 3, 4, 5):
+        P.append({"spec": {"model": "circuit", "n": n}})
+    g = lcg(5)
+    for n in (3, 4, 5):
+        c = [[0 if a == b else next(g) % 7 for b in range(n)] for a in range(n)]
+        P.append({"spec": {"model": "tsp", "costs": c, "op": "opt", "cfg": {"tsp_heuristics": False}}, "fix_heur": True})
+        c = [[0 if a == b else 1 + next(g) % 7 for b in range(n)] for a in range(n)]
+        P.append({"spec": {"model": "tsp", "costs": c, "op": "opt", "cfg": {"tsp_heuristics": True}}, "fix_heur": True})
+    return P
+
+
 ENUMERATED = True
 
 
@@ -427,15 +467,21 @@ def n_runs(tier: str) -> int:
     return len(points(tier)) * (3 if tier == "quick" else 12)
 
 
+def n_runs_interpreted(tier: str) -> int:
+    return len(interpreted_points(tier)) * (3 if tier == "quick" else 10)
+
+
 def prepare(params: dict):
+    if params.get("interpreted"):
+        return
     for spec in ({"model": "queens", "n": 4, "cfg": {"cons": 1, "dom_h": 3}}, {"model": "golomb", "n": 4, "op": "opt", "cfg": {"golomb_alg": True}},
                  {"model": "schur", "n": 4, "cfg": {"dom_h": 1, "var_h": 1}, "workers": 2}, {"model": "queens", "n": 4, "cfg": {"dom_h": 2, "var_h": 2}}):
         execute(spec)
 
 
-def execute(spec: dict) -> dict:
+def execute(spec: dict, compiled: bool = True) -> dict:
     try:
-        r = subprocess.run([sys.executable, WORKER, repo_dir(), ROOT, json.dumps(spec)], env=worker_env(True),
+        r = subprocess.run([sys.executable, WORKER, repo_dir(), ROOT, json.dumps(spec)], env=worker_env(compiled),
                            capture_output=True, text=True, timeout=TIMEOUT)
     except subprocess.TimeoutExpired:
         return {"outcome": "timeout"}
@@ -449,7 +495,7 @@ def execute(spec: dict) -> dict:
 
 def run(ch: Choices, focus: str = "C20", params: Optional[dict] = None) -> dict:
     params = params or {}
-    pts = points(params.get("tier", "quick"))
+    pts = interpreted_points(params.get("tier", "quick")) if params.get("interpreted") else points(params.get("tier", "quick"))
     idx = params.get("run_index")
     i = ch.fixed(len(pts), "point", idx % len(pts) if idx is not None else None)
     variant = ch.fixed(64, "variant", (idx // len(pts)) if idx is not None else None)
@@ -495,6 +541,18 @@ def run(ch: Choices, focus: str = "C20", params: Optional[dict] = None) -> dict:
         spec["seed"] = 1 + variant  # the interleaving of the simulated processes when the program uses several
         out["probes"]["example_programs_run_as_shipped"] += 1
     spec["cfg"] = cfg
+    if params.get("interpreted"):
+        res = execute(spec, compiled=False)
+        out["probes"]["shipped_models_run_interpreted"] += 1
+        out["probes"]["model:" + spec["model"]] += 1
+        if res.get("outcome") == "error" and str(res.get("error", "")).startswith("IndexError"):
+            viol("index-error", f"[{ {k: v for k, v in spec.items() if k not in ('costs',)} }] interpreted: {res['error']} {res.get('tb', '')[-400:]}")
+        elif res.get("outcome") not in ("ok", "error"):
+            raise RuntimeError(f"interpreted model worker: {res}")
+        out["log_sha"] = sha([spec, res.get("outcome"), res.get("count"), res.get("optimum"), str(res.get("error"))[:80]])
+        out["key"] = sha(spec)[:16]
+        out["sample"] = {"spec": {k: v for k, v in spec.items() if k not in ("costs",)}, "outcome": res.get("outcome"), "count": res.get("count")}
+        return out
     res = execute(spec)
     ctx = f"[{ {k: v for k, v in spec.items() if k not in ('givens', 'costs', 'weights', 'volumes', 'fix_solution', 'fix_many')} }] "
     if pt.get("accepts"):
